@@ -8,6 +8,11 @@ CLAIMED = {
    note="Trusted: spec.rs (request table and layouts transcribed from the vhost-user specification), the protocol model in props/c04.rs. Stated tolerances: the SET_PROTOCOL_FEATURES that flips REPLY_ACK may or may not be acked; requests rejected before the handler may produce nothing or one non-zero ack; SET_LOG_BASE reply payload and the 4 padding bytes of the inflight description are spec-silent.",
    technique="model-based (stateful) property testing: bounded-exhaustive + proptest histories vs. reference protocol model",
    ref="DESIGN.md section 3, C04"),
+ "C05": dict(level="exploration",
+   text="Generated-input search on both levels named by the property: (a) the real BackendReqHandler is fed grammar-aware byte streams (valid messages of random codes with one mutator each on size/flags/code/body fields, truncation, extension, random tails, 0..=40 descriptors at byte 0 or a random byte, after a random negotiation prefix) and random byte strings; every handler invocation must be explained by a protocol-valid message (independent predicates) literally present in the sent bytes at increasing offsets, no call may panic. (b) a running daemon receives sequences of well-typed messages with adversarial 64-bit fields (regions at the top of the address space, unmappable sizes, ring addresses around region edges, indexes up to 255 and beyond); no thread may panic, the process must not crash (supervising parent turns a signal into a replayable violation).",
+   note="Trusted: refpred.rs / spec.rs, the 'message present in the stream' oracle (resynchronisation after an error is the server's choice), overflow-checks + debug-assertions in the harness build. A set REPLY bit on a request and out-of-bounds reads that do not alter arguments are not judged here (the latter: ASan fuzz target). Descriptors passed by the generator back the ranges the messages declare (a mapping past the end of a file faults in any mmap-based back end).",
+   technique="grammar-aware mutational property testing (proptest) with independent validity oracle; crash isolation by supervising process",
+   ref="DESIGN.md section 3, C05"),
  "C11": dict(level="exploration",
    text="Model-based testing of a real VhostUserDaemon: every word up to depth 4 (quick) / 5 (thorough) over the 11-symbol one-ring alphabet (containing a kick) is executed on a fresh daemon, alternating Mutex- and RwLock-backed rings, plus random 2-ring histories up to 20 steps; after every step a double barrier on the worker makes 'no dispatch' observable without sleeping and per-ring handler invocations are compared with a reference ring model (started/enabled/pending). Histories are unbounded, so bounded-exhaustive + random exploration is what is claimed.",
    note="Trusted: the ring model in props/c11.rs, the double-barrier argument (epoll batch semantics), the raw spec-encoding client. Kicks are raised on the current descriptor and on stale descriptors the front end still holds; fatal-by-protocol steps are skipped; an extra handler call for an active ring without a kick is only counted.",
